@@ -82,3 +82,594 @@ def register(T, repo):
         result=lambda A: AnyS('message'),
         ensures=[('offset-length-select-match', cm_post)], pure=True))
     return T
+
+
+# ===================================================================== JSON
+from pyvc import jsonval as jv     # noqa: E402
+from pyvc.jsonval import JVal      # noqa: E402
+
+SU = 'yalafi.shell.utils.'
+SH = 'yalafi.shell.shell.'
+PR = 'yalafi.shell.proofreader.'
+
+
+class JValS(Spec):
+    """JSON value; typed=(type tags) fixes its type; fields: key ->
+    (spec of the child) for keys known to be present"""
+    def __init__(self, types=None, fields=None, name='j'):
+        self.types = types
+        self.fields = fields or {}
+        self.name = name
+
+    def make(self, ex, st):
+        j = JVal(self.name)
+        st.assume(j.constraints())
+        if self.types:
+            st.assume(j.is_types(*self.types))
+        for k, sp in self.fields.items():
+            ch = sp.make(ex, st)
+            j.items[k] = [True, ch]
+        return j
+
+    def check(self, ex, st, v, label, line=0):
+        if not isinstance(v, JVal):
+            if self.types == (jv.T_DICT,) and isinstance(v, PyDict):
+                for k, sp in self.fields.items():
+                    if k not in v.items:
+                        ex.prove(st, '%s:has[%s]' % (label, k), False, line)
+                    else:
+                        sp.check(ex, st, v.items[k], label + '.' + k, line)
+                return
+            if self.types and set(self.types) <= {jv.T_INT, jv.T_BOOL} \
+                    and sym.is_int(v):
+                return
+            from pyvc.sym import EngineError
+            raise EngineError('%s: expected JSON value, got %r' % (label, v))
+        if self.types:
+            ex.prove(st, label + ':json-type', v.is_types(*self.types), line)
+        for k, sp in self.fields.items():
+            p, ch = v.child(k)
+            ex.prove(st, '%s:json-has[%s]' % (label, k), p, line)
+            sp.check(ex, st, ch, label + '.' + k, line)
+
+
+class FuncValS(Spec):
+    def __init__(self, qual):
+        self.qual = qual
+
+    def make(self, ex, st):
+        from pyvc.engine import FuncRef
+        return FuncRef(self.qual)
+
+    def check(self, ex, st, v, label, line=0):
+        pass
+
+
+def JInt(name='n'):
+    return JValS((jv.T_INT, jv.T_BOOL), name=name)
+
+
+def TypedMatchS():
+    """a match after run_proofreader_options: a dict whose offset and
+    length are integers (everything else is untyped)"""
+    return JValS((jv.T_DICT,), {'offset': JInt('offset'),
+                                'length': JInt('length')}, name='m')
+
+
+def ast_call(line):
+    import ast
+    n = ast.Call(func=ast.Name(id='f', ctx=ast.Load()), args=[], keywords=[])
+    n.lineno = line
+    return n
+
+
+def num(v):
+    return v.ival if isinstance(v, JVal) else zint(v)
+
+
+def register_json(T, repo):
+    # ------------------------------------------------------------ json_get
+    c = FContract(SH + 'json_get', params={'dic': AnyS(), 'item': AnyS(),
+                                           'typ': AnyS()})
+
+    def jg_apply(ex, st, vals, line, c=c):
+        # returns a value of type `typ` or does not return (json_fatal)
+        from pyvc.engine import Builtin, TypeOf
+        dic, item, typ = vals['dic'], vals['item'], vals['typ']
+        if isinstance(dic, JVal):
+            if not isinstance(item, str):
+                raise Unsupported('json_get item %r' % (item,))
+            st.assume(dic.typ == jv.T_DICT)
+            p, ch = dic.child(item)
+            if isinstance(ch, JVal):
+                st.assume(zbool(p))
+                st.assume(ch.py_isinstance(ex, st, typ if isinstance(
+                    typ, tuple) else (typ,)))
+                # typed scalar results become ordinary values
+                if isinstance(typ, Builtin) and typ.name == 'str':
+                    yield st, ch.string(st)
+                    return
+                if isinstance(typ, Builtin) and typ.name == 'int':
+                    yield st, ch.ival
+                    return
+            else:
+                dic.items[item][0] = True
+            yield st, ch
+            return
+        if isinstance(dic, PyDict) and isinstance(item, str) and \
+                item in dic.items:
+            yield st, dic.items[item]
+            return
+        raise Unsupported('json_get on %r' % (dic,))
+    c.apply = jg_apply
+    T.add(c)
+    for q in ('yalafi.shell.gentext.json_get', 'yalafi.shell.genxml.json_get',
+              'yalafi.shell.genhtml.json_get', PR + 'json_get'):
+        pass
+
+    # module globals of the report generators (set by init(vars))
+    prev_g = T.globals_hook
+
+    def g_hook(ex, st, module, name):
+        if module.startswith('yalafi.shell.') and name == 'json_get':
+            from pyvc.engine import FuncRef
+            return FuncRef(SH + 'json_get')
+        return prev_g(ex, st, module, name) if prev_g else NotImplemented
+    T.globals_hook = g_hook
+    from pyvc import front as _front
+    for mi in _front.repo().modules.values():
+        if mi.name.startswith('yalafi.shell.'):
+            mi.globals.setdefault('json_get', None)
+            mi.globals.setdefault('cmdline', None)
+
+    def f_write(ex, st, fi, o, args, kw, line):
+        # assumed: file.write accepts a str
+        if not sym.is_str(args[0]):
+            ex.prove(st, 'safe:write-str@%d' % line, False, line)
+        st.ghost['$writes'] = st.ghost.get('$writes', 0) + 1
+        yield st, None
+
+    def f_flush(ex, st, fi, o, args, kw, line):
+        yield st, None
+    T.obj_methods[('file', 'write')] = f_write
+    T.obj_methods[('file', 'flush')] = f_flush
+
+    # --------------------------------------------- correct_mark_macroname
+    def cmm_post(A, r):
+        off, ln = zint(A['offset']), zint(A['length'])
+        N = zint(seq_len(A['latex']))
+        return And(Or(r == ln, And(ln == 1, r >= 1)),
+                   Implies(And(0 <= off, off < N, ln == 1), off + r <= N))
+    T.add(FContract(
+        SU + 'correct_mark_macroname',
+        params={'offset': IntS(name='offset'), 'length': IntS(name='length'),
+                'latex': StrS(name='latex')},
+        result=lambda A: IntS(name='len'),
+        ensures=[('length', cmm_post)], pure=True))
+
+    def re_search(ex, st, fi, args, kw, line):
+        # assumed contract of re.search with a pattern anchored by \\A:
+        # None, or a match starting at 0 inside the string
+        s = lift_str(args[1])
+        b = fresh_int('mend')
+        st.assume(And(0 <= b, b <= zint(s.ln)))
+        m = Obj('re.Match', {'_start': 0, '_end': b, '_string': s,
+                             'string': s})
+        pat = args[0]
+        if isinstance(pat, str) and pat.startswith('\\A') and \
+                pat.endswith('+'):
+            st.assume(b >= 1)
+        yield st, Opt(fresh_bool('nomatch'), m)
+    T.externs['re.search'] = re_search
+
+    # ------------------------------------------------- map_match_position
+    def charmap_ok(A):
+        cm_, N = A['charmap'], zint(seq_len(A['latex']))
+        return And(zint(cm_.ln) >= 1, forall(0, cm_.ln, lambda k: And(
+            1 <= sym.iabs(cm_.at(k)), sym.iabs(cm_.at(k)) <= N)))
+
+    def mmp_post(A, r):
+        m = A['m']
+        N = zint(seq_len(A['latex']))
+        off = num(m.items['offset'][1])
+        ln = num(m.items['length'][1])
+        # C15: the reported location lies inside the LaTeX file; C14: it is
+        # the source position of the flagged plain-text character
+        cmap = A['charmap']
+        o0 = zint(A['old']['offset'])
+        clamp = z3.If(o0 < 0, 0, z3.If(o0 > zint(cmap.ln) - 1,
+                                       zint(cmap.ln) - 1, o0))
+        return And(0 <= off, off < N,
+                   off == sym.iabs(cmap.at(clamp)) - 1,
+                   off + ln <= N)
+    c = T.add(FContract(
+        SU + 'map_match_position',
+        params={'m': TypedMatchS(), 'latex': StrS(name='latex'),
+                'charmap': IListS(name='charmap')},
+        requires=[('charmap-in-file', charmap_ok)],
+        returns_param='m',
+        ensures=[('location-in-file', mmp_post)],
+        olds=lambda A: {'offset': num(A['m'].items['offset'][1]),
+                        'length': num(A['m'].items['length'][1])}))
+
+    def mmp_effects(ex, st, A):
+        m = A['m']
+        m.items['offset'] = [True, fresh_int('offset_tex')]
+        m.items['length'] = [True, fresh_int('length_tex')]
+    c.effects = mmp_effects
+
+    # -------------------------------------------------- output_text_report
+    def FileS():
+        return ObjS('file', {})
+
+    def MatchesS():
+        return ListS(TypedMatchS(), None, 'matches')
+
+    GT = 'yalafi.shell.gentext.'
+    c = T.add(FContract(
+        GT + 'output_text_report',
+        params={'tex': StrS(name='tex'), 'plain': StrS(name='plain'),
+                'charmap': IListS(name='charmap'), 'matches': MatchesS(),
+                'file': StrS(name='file'), 'out': FileS()},
+        requires=[('charmap-in-file', lambda A: charmap_ok(
+            {'charmap': A['charmap'], 'latex': A['tex']}))]))
+
+    def linecol(tex, o):
+        """spec function shared by all report formats (C14):
+        1-based line and column of offset o"""
+        from pyvc.builtins import count_f
+        t = lift_str(tex)
+        return count_f(t.arr, z3.IntVal(10), z3.IntVal(0), zint(o)) + 1
+
+    def tr_body(E0, E1):
+        # the report prints the 1-based line and column of the mapped
+        # offset: col = offset - (start of its line) + 1
+        tex = lift_str(E1['tex'])
+        off = zint(E1['offset'])
+        lin, nl, col = zint(E1['lin']), zint(E1['nl']), zint(E1['col'])
+        return And(0 <= off, off < zint(tex.ln),
+                   lin == linecol(tex, off), col == off - nl + 1, col >= 1,
+                   0 <= nl, nl <= off,
+                   forall(nl, off, lambda k: tex.at(k) != 10),
+                   Or(nl == 0, tex.at(nl - 1) == 10))
+    c.loop(0).body_post.append(('line-column-of-offset', tr_body))
+
+    def line_start(tex, o, nl):
+        """nl is the start of the line that contains offset o"""
+        return And(0 <= nl, nl <= o,
+                   forall(nl, o, lambda k: tex.at(k) != 10),
+                   Or(nl == 0, tex.at(nl - 1) == 10))
+
+    # --------------------------------------------------------- output_json
+    GJ = 'yalafi.shell.genjson.'
+
+    def oj_post(A, r):
+        # 0-based line / column of the first and the last flagged character
+        L = A.get('$locals')
+        if L is None:
+            return True
+        tex = lift_str(L['tex'])
+        priv = L['priv']
+        beg, end = zint(L['beg']), zint(L['end'])
+        fy, fx = zint(priv.items['fromy']), zint(priv.items['fromx'])
+        ty, tx = zint(priv.items['toy']), zint(priv.items['tox'])
+        return And(0 <= beg, beg < zint(tex.ln), end < zint(tex.ln),
+                   fy == linecol(tex, beg) - 1, fx >= 0,
+                   line_start(tex, beg, beg - fx),
+                   Implies(end >= 0, And(ty == linecol(tex, end) - 1,
+                                         line_start(tex, end,
+                                                    end - tx + 1))))
+    T.add(FContract(
+        GJ + 'output_json.<locals>.f',
+        params={'m': TypedMatchS()},
+        free={'tex': StrS(name='tex'), 'charmap': IListS(name='charmap'),
+              'json_get': FuncValS(SH + 'json_get')},
+        requires=[('charmap-in-file', lambda A: charmap_ok(
+            {'charmap': A['charmap'], 'latex': A['tex']}))],
+        returns_param='m', ensures=[('line-column', oj_post)]))
+
+    # --------------------------------------------------- output_xml_report
+    GX = 'yalafi.shell.genxml.'
+    c = T.add(FContract(
+        GX + 'output_xml_report',
+        params={'tex': StrS(name='tex'), 'plain': StrS(name='plain'),
+                'charmap': IListS(name='charmap'), 'matches': MatchesS(),
+                'byte_offset': BoolS('bytes'),
+                'file': StrS(name='file'), 'out': FileS()},
+        requires=[('charmap-in-file', lambda A: charmap_ok(
+            {'charmap': A['charmap'], 'latex': A['tex']}))]))
+
+    def xml_body(E0, E1):
+        tex = lift_str(E1['tex'])
+        beg, end = zint(E1['beg']), zint(E1['end'])
+        fy, ty = zint(E1['fromy']), zint(E1['toy'])
+        fx, tx = zint(E1['fromx']), zint(E1['tox'])
+        bo = zbool(E1['byte_offset'])
+        return And(0 <= beg, beg < zint(tex.ln), end < zint(tex.ln),
+                   fy == linecol(tex, beg) - 1,
+                   Implies(end >= 0, ty == linecol(tex, end) - 1),
+                   Implies(Not(bo), And(fx >= 0, line_start(tex, beg,
+                                                            beg - fx))),
+                   Implies(And(Not(bo), end >= 0),
+                           line_start(tex, end, end - tx + 1)),
+                   fx >= 0)
+    c.loop(0).body_post.append(('line-column', xml_body))
+
+    def et_tostring(ex, st, fi, args, kw, line):
+        yield st, fresh_seq('str', 'xml', st.assume)
+
+    def et_element(ex, st, fi, args, kw, line):
+        # assumed: attribute values must be strings
+        d = args[1]
+        if isinstance(d, PyDict):
+            for k, v in d.items.items():
+                if not sym.is_str(v):
+                    ex.prove(st, 'safe:xml-attribute-str[%s]@%d' % (k, line),
+                             False, line)
+        yield st, Opaque('xml-element')
+    # --------------------------------------------- run_proofreader_options
+    from pyvc.engine import refine_list, FuncRef, PyDict as _PD
+    TT = 'yalafi.tex2txt.'
+
+    class CmdlineS(Spec):
+        """the option object of the shell: attributes typed on demand"""
+        BOOLS = ('plain_input', 'list_unknown', 'multi_language',
+                 'textgears', 'simple_equations', 'no_specials')
+        INTS = ('ml_continue_threshold', 'ml_rule_threshold', 'context')
+
+        def make(self, ex, st):
+            o = Obj('cmdline', {})
+
+            def lazy(ex_, st_, o_, attr):
+                if attr in self.BOOLS:
+                    return fresh_bool(attr)
+                if attr in self.INTS:
+                    return fresh_int(attr)
+                from pyvc.engine import OptVal
+                if attr in ('replace',):
+                    return OptVal(fresh_bool('none'), ListS(StrS(), None,
+                                                            attr).make(ex_, st_))
+                return OptVal(fresh_bool(attr + '_none'),
+                              fresh_seq('str', attr, st_.assume))
+            o.meta['lazy'] = lazy
+            return o
+
+        def check(self, ex, st, v, label, line=0):
+            pass
+
+    def g_hook2(ex, st, module, name, prev=T.globals_hook):
+        if module.startswith('yalafi.shell.') and name == 'cmdline':
+            if '$cmdline' not in st.ghost:
+                st.ghost['$cmdline'] = CmdlineS().make(ex, st)
+            return st.ghost['$cmdline']
+        if module == PR[:-1] and name.startswith('equation_replacements'):
+            return fresh_seq('str', name, st.assume)
+        return prev(ex, st, module, name)
+    T.globals_hook = g_hook2
+    for mi in _front.repo().modules.values():
+        if mi.name == PR[:-1]:
+            for n in ('equation_replacements', 'equation_replacements_inline',
+                      'equation_replacements_display'):
+                mi.globals.setdefault(n, None)
+
+    # tex2txt as seen from the shell (proved in C01 for the single-language
+    # mode; multi-language parts: lemmas of C12): text and map of equal
+    # length, every entry p with 1 <= |p| <= len(tex)
+    def PartS(A):
+        N = seq_len(A['latex'])
+        t = StrS(name='plain')
+
+        class _P(Spec):
+            def make(self, ex, st):
+                txt = t.make(ex, st)
+                cm_ = IListS(name='charmap').make(ex, st)
+                st.assume(zint(cm_.ln) == zint(txt.ln))
+                st.assume(forall(0, cm_.ln, lambda k: And(
+                    1 <= cm_.at(k), cm_.at(k) <= zint(N))))
+                return (txt, cm_)
+
+            def check(self, ex, st, v, label, line=0):
+                pass
+        return _P()
+
+    class T2TResultS(Spec):
+        def __init__(self, A):
+            self.A = A
+
+        def make(self, ex, st):
+            ml = self.A.get('multi_language', False)
+            part = PartS(self.A)
+            if ml is False:
+                return part.make(ex, st)
+            d = _PD('plain_map')
+            lang = fresh_seq('str', 'lang', st.assume)
+            d.sym_items.append((lang, ListS(part, None, 'parts').make(
+                ex, st)))
+            return d
+
+        def check(self, ex, st, v, label, line=0):
+            pass
+    c = T.add(FContract(
+        TT + 'tex2txt',
+        params={'latex': StrS(name='latex'), 'opts': AnyS(),
+                'multi_language': AnyS(), 'modify_parms': AnyS()},
+        result=lambda A: T2TResultS(A), pure=True))
+    c.ctor_defaults = {}
+    T.add(FContract(TT + 'Options', params={}, result=lambda A: AnyS('opts'),
+                    pure=True))
+    T.get(TT + 'Options').apply_ctor = \
+        lambda ex, st, args, kw, line: iter([(st, Opaque('opts'))])
+
+    # tex2txt.fatal / json_fatal: the shell's clean one-line error exit
+    # (allowed outcome of C15): does not return
+    T.add(FContract(TT + 'fatal', params={'msg': AnyS(), 'detail': AnyS()},
+                    no_return=True))
+    T.get(TT + 'fatal').ctor_defaults = {}
+
+    def untyped_matches():
+        return ListS(JValS(name='lm'), None, 'lt_matches')
+    for nm, ps in (('run_languagetool',
+                    ['plain', 'language', 'disable', 'enable',
+                     'disablecategories', 'enablecategories', 'lt_options']),
+                   ('run_textgears', ['plain'])):
+        T.add(FContract(PR + nm, params={p_: AnyS() for p_ in ps},
+                        result=lambda A: untyped_matches(), pure=True))
+
+    def own_matches():
+        # messages built by checks.create_message: dict literals with
+        # integer offset / length
+        return ListS(TypedMatchS(), None, 'own_matches')
+    T.add(FContract(CH + 'create_single_letter_matches',
+                    params={'plain': AnyS(), 'cmdline': AnyS()},
+                    result=lambda A: own_matches(), pure=True))
+    T.add(FContract(CH + 'create_equation_punct_messages',
+                    params={'plain': AnyS(), 'cmdline': AnyS(),
+                            'equation_replacements_display': AnyS(),
+                            'equation_replacements_inline': AnyS(),
+                            'equation_replacements': AnyS()},
+                    result=lambda A: own_matches(), pure=True))
+
+    def rpo_result(A):
+        tex = A['tex']
+
+        class _R(Spec):
+            def make(self, ex, st):
+                plain = StrS(name='plain_tot').make(ex, st)
+                cm_ = IListS(name='charmap_tot').make(ex, st)
+                st.assume(zint(cm_.ln) == zint(plain.ln))
+                st.assume(forall(0, cm_.ln, lambda k: And(
+                    1 <= sym.iabs(cm_.at(k)),
+                    sym.iabs(cm_.at(k)) <= zint(seq_len(tex)))))
+                ms = MatchesS().make(ex, st)
+                st.assume(Implies(zint(ms.length()) > 0, zint(cm_.ln) >= 1))
+                return (tex, plain, cm_, ms)
+
+            def check(self, ex, st, v, label, line=0):
+                t_, plain, cm_, ms = v
+                ex.prove(st, label + ':len-eq',
+                         zint(seq_len(plain)) == zint(cm_.ln), line)
+                ex.prove(st, label + ':charmap-in-file', forall(
+                    0, cm_.ln, lambda k: And(
+                        1 <= sym.iabs(cm_.at(k)),
+                        sym.iabs(cm_.at(k)) <= zint(seq_len(tex)))), line)
+                MatchesS().check(ex, st, ms, label + ':matches', line)
+                ex.prove(st, label + ':matches-need-text', Implies(
+                    zint(ms.length()) > 0, zint(cm_.ln) >= 1), line)
+        return _R()
+
+    c = T.add(FContract(
+        PR + 'run_proofreader_options',
+        params={'tex': StrS(name='tex'), 'language': StrS(name='language'),
+                'disable': StrS(name='disable'),
+                'enable': StrS(name='enable'),
+                'disablecategories': StrS(name='disacat'),
+                'enablecategories': StrS(name='enacat'),
+                'lt_options': AnyS()},
+        result=rpo_result))
+
+    def typed(ex_, s_, m):
+        # established by the typing loop: json_get(m,'offset',int),
+        # json_get(m,'length',int) returned
+        if isinstance(m, JVal):
+            po, co = m.child('offset')
+            pl, cl = m.child('length')
+            parts = [m.typ == jv.T_DICT]
+            if isinstance(co, JVal):
+                parts += [zbool(po), co.is_types(jv.T_INT, jv.T_BOOL)]
+            if isinstance(cl, JVal):
+                parts += [zbool(pl), cl.is_types(jv.T_INT, jv.T_BOOL)]
+            return And(*parts)
+        return True
+    # loop ordinals: 0 = for lang, 1 = for plain, charmap, 2 = for m
+    lp2 = c.loop(2)
+    lp2.body_post.append(('offset-and-length-typed', lambda E0, E1: typed(
+        None, None, E1['m'])))
+    lp2.on_exit = lambda E, st: refine_list(st.ex, st, E['matches'], typed)
+    lp2.shapes['m'] = lambda E: AnyS()
+    for k in (0, 1):
+        lp = c.loop(k)
+        lp.shapes['matches_tot'] = lambda E: MatchesS()
+        lp.invs.append(('text-and-map-in-step', lambda E: And(
+            zint(seq_len(E['plain_tot'])) == zint(E['charmap_tot'].ln),
+            Implies(zint(E['matches_tot'].length()) > 0,
+                    zint(E['charmap_tot'].ln) >= 1),
+            forall(0, E['charmap_tot'].ln, lambda j: And(
+                1 <= sym.iabs(E['charmap_tot'].at(j)),
+                sym.iabs(E['charmap_tot'].at(j)) <=
+                zint(seq_len(E['tex'])))))))
+    T.empty_hints[(PR + 'run_proofreader_options', 'charmap_tot')] = 'ilist'
+
+    def sort_hook(ex, st, fi, lst, args, kw, line):
+        # assumed contract of list.sort(key=f): f is called on every
+        # element, the list is permuted
+        from pyvc import builtins as bi
+        key = kw.get('key')
+        if key is None:
+            raise Unsupported('sort without key')
+        tmp = TokList(list(lst.segs))
+        ex.normalise(tmp, st)
+        g = st.clone()
+        g.assume(zint(lst.length()) > 0)
+        e = tmp.segs[0].mk(g)
+        for _ in bi.dispatch(ex, ast_call(line), g, fi, key, [e], {}):
+            pass
+        yield st, None
+    T.sort_hook = sort_hook
+
+    # ------------------------------------------- server.Handler.create_message
+    SV = 'yalafi.shell.server.Handler.'
+
+    class RequS(Spec):
+        """parsed HTML request (urllib.parse.parse_qs): field -> non-empty
+        list of strings; 'language' and 'text' present (checked by do_POST
+        through the bare except around create_message)"""
+        def make(self, ex, st):
+            from pyvc.contracts import DictS
+            d = DictS(ListS(StrS(name='v'), lambda n: zint(n) >= 1, 'vals'),
+                      'requ', known=('language', 'text')).make(ex, st)
+            return d
+
+        def check(self, ex, st, v, label, line=0):
+            pass
+
+    class ServerS(Spec):
+        def make(self, ex, st):
+            from pyvc.contracts import DictS
+            srv = Obj('server', {
+                'my_lt_options': ListS(StrS(name='o'), None, 'lt_options'
+                                       ).make(ex, st),
+                'my_option_map': DictS(TupleS(
+                    ListS(StrS(name='cli'), lambda n: zint(n) >= 1, 'names'),
+                    IntS(lambda n: And(n >= 0, n <= 1), name='nargs')),
+                    'option_map').make(ex, st),
+                'my_proofreader': FuncValS(PR + 'run_proofreader_options'
+                                           ).make(ex, st)})
+            return Obj('yalafi.shell.server.Handler', {'server': srv})
+
+        def check(self, ex, st, v, label, line=0):
+            pass
+
+    def cm_result_post(A, r):
+        return True
+    c = T.add(FContract(
+        SV + 'create_message',
+        params={'self': ServerS(), 'requ': RequS()},
+        result=lambda A: AnyS('answer')))
+    lp = c.loop(0)
+    lp.shapes['new_opts'] = lambda E: ListS(StrS(name='o'), None, 'new')
+    lp.shapes['old_opts'] = lambda E: ListS(StrS(name='o'), None, 'old')
+    lp = c.loop(1)
+    lp.shapes['old_opts'] = lambda E: ListS(StrS(name='o'), None, 'old')
+
+    T.externs['xml.etree.ElementTree.tostring'] = et_tostring
+    T.externs['xml.etree.ElementTree.Element'] = et_element
+    return T
+
+
+_old_register = register
+
+
+def register(T, repo):      # noqa: F811
+    _old_register(T, repo)
+    register_json(T, repo)
+    return T
